@@ -201,6 +201,9 @@ impl Scene for S {
                 // must not: never subscribed, or unsubscribed before with no possibly-later subscribe
                 let never = my_subs.is_empty();
                 let unsub_before = my_unsubs.iter().any(|u| u.done && u.hi < piv.lo && my_subs.iter().all(|r| r.done && r.hi < u.lo));
+                if never || unsub_before {
+                    crate::check::oblige("not-delivered-to-unsubscribed");
+                }
                 if (never || unsub_before) && got > 0 {
                     v(
                         "not-delivered-to-unsubscribed",
@@ -214,6 +217,9 @@ impl Scene for S {
                 // (every subscriber terminates at the very end, when the clients let go of their
                 // handles at t=5; 'alive' here means: no program drops or stops it earlier)
                 let ended_early = self.programs.iter().flatten().any(|op| matches!(op, B::DropSub(x) | B::StopSub(x) if *x == s));
+                if *pok && subscribed_before && unsubs_harmless && !ended_early && settled {
+                    crate::check::oblige("delivered-to-subscribed");
+                }
                 if *pok && subscribed_before && unsubs_harmless && !ended_early && settled && got == 0 {
                     v("delivered-to-subscribed", "C09/not-delivered".into(), format!("publication {id} (topic {topic}) was not delivered to subscriber {s} whose subscription had completed before the publish began"));
                 }
@@ -232,6 +238,9 @@ impl Scene for S {
                 for b in a + 1..orders.len() {
                     let common_a: Vec<u32> = orders[a].iter().copied().filter(|x| orders[b].contains(x)).collect();
                     let common_b: Vec<u32> = orders[b].iter().copied().filter(|x| orders[a].contains(x)).collect();
+                    if common_a.len() >= 2 {
+                        crate::check::oblige("common-order");
+                    }
                     if common_a != common_b {
                         v("common-order", "C09/subscribers-disagree-on-order".into(), format!("topic {topic}: subscriber {a} saw {:?}, subscriber {b} saw {:?}", orders[a], orders[b]));
                     }
@@ -242,6 +251,7 @@ impl Scene for S {
                             let ip = orders[a].iter().position(|x| x == p);
                             let iq = orders[a].iter().position(|x| x == q);
                             if let (Some(ip), Some(iq)) = (ip, iq) {
+                                crate::check::oblige("publisher-order");
                                 if ip > iq {
                                     v("publisher-order", "C09/publication-order-reversed".into(), format!("publish {p} returned before publish {q} began, yet subscriber {a} saw {q} first"));
                                 }
@@ -253,6 +263,7 @@ impl Scene for S {
         }
         // the broker never keeps a subscriber alive: at the end every subscriber has terminated
         if settled {
+            crate::check::oblige("broker-does-not-keep-alive");
             for s in 0..self.nsubs {
                 if !terminated(s) {
                     v("broker-does-not-keep-alive", "C09/subscriber-alive-at-end".into(), format!("subscriber {s} was still alive after every strong handle had been dropped"));
@@ -332,6 +343,7 @@ pub fn property() -> Property {
     Property {
         id: "C09",
         cases,
+        clauses: &["delivered-to-subscribed", "not-delivered-to-unsubscribed", "common-order", "publisher-order", "broker-does-not-keep-alive"],
         assumptions: &[
             "subscriber mailboxes are unbounded, so the broker's fan-out never blocks and its HashMap iteration order (std RandomState, not owned by the harness) cannot influence anything observable; the replay-divergence check guards this",
             "a subscribe made from a handler (Context::subscribe) counts as completed once a following ping to that actor returned",
